@@ -82,7 +82,10 @@ MIN_COUNTERS = {
               "distinct_out_of_order_doe_completions_observed": 5, "chain_equivalence_checked": 6, "chain_jacobian_checked": 6,
               "chain_gated_phases": 12, "fd_parallel_equals_serial_checked": 3, "shared_cache_runs": 16, "yield_injected_runs": 14,
               "yields_injected": 2500, "yields_in_base_full_cache.py": 14, "yields_in_locks.py": 14,
-              "yields_in_callable_parallel_execution.py": 14, "cache_invariant_evaluations": 16, "precached_inputs_checked": 12},
+              "yields_in_callable_parallel_execution.py": 14, "cache_invariant_evaluations": 16, "precached_inputs_checked": 12,
+              "fd_equiv_checked": 25, "fd_equiv_fd": 6, "fd_equiv_cd": 6, "fd_equiv_cs": 6, "fd_equiv_step_call-scalar": 7,
+              "fd_equiv_step_call-array": 3, "fd_equiv_step_call-equal": 3, "fd_equiv_step_ctor": 3, "fd_equiv_step_default": 3,
+              "fd_equiv_subset": 5, "fd_equiv_design_space": 8, "fd_equiv_design_space_normalized": 3, "fd_equiv_on_or_near_ub": 5},
     "thorough": {"thread_schedules": 87000, "process_schedules": 1100, "forced_order_honoured": 88000,
                  "distinct_completion_orders_observed_thread": 9400, "distinct_completion_orders_observed_process": 270,
                  "distinct_out_of_order_completions_observed_thread": 9300, "distinct_out_of_order_completions_observed_process": 260,
@@ -92,7 +95,10 @@ MIN_COUNTERS = {
                  "distinct_out_of_order_doe_completions_observed": 30, "chain_equivalence_checked": 40, "chain_jacobian_checked": 40,
                  "chain_gated_phases": 80, "fd_parallel_equals_serial_checked": 20, "shared_cache_runs": 215, "yield_injected_runs": 200,
                  "yields_injected": 40000, "yields_in_base_full_cache.py": 200, "yields_in_locks.py": 200,
-                 "yields_in_callable_parallel_execution.py": 200, "cache_invariant_evaluations": 215, "precached_inputs_checked": 185},
+                 "yields_in_callable_parallel_execution.py": 200, "cache_invariant_evaluations": 215, "precached_inputs_checked": 185,
+                 "fd_equiv_checked": 300, "fd_equiv_fd": 90, "fd_equiv_cd": 90, "fd_equiv_cs": 90, "fd_equiv_step_call-scalar": 90,
+                 "fd_equiv_step_call-array": 45, "fd_equiv_step_call-equal": 45, "fd_equiv_step_ctor": 45, "fd_equiv_step_default": 45,
+                 "fd_equiv_subset": 70, "fd_equiv_design_space": 140, "fd_equiv_design_space_normalized": 60, "fd_equiv_on_or_near_ub": 100},
 }
 SHARD_TIMEOUT = {"quick": 400, "thorough": 2400}
 N_SHARDS = 16
@@ -992,6 +998,202 @@ def run_fd(case, rep):
                       brief(np.asarray(par)), brief(np.asarray(serial)))
 
 
+# =========================================================================== parallel == serial derivative approximation (wide)
+FD_CLS = {"fd": "FirstOrderFD", "cd": "CenteredDifferences", "cs": "ComplexStep"}
+_EPS = float(np.finfo(float).eps)
+
+
+def _fd_equiv_function(a, skew):
+    a = np.array(a, dtype=float)
+
+    def f(x):
+        x = np.array(x)  # contiguous copy (keeps a complex dtype): same summation order in the workers and in the parent
+        if skew:  # pseudo-random durations so that the perturbed points do not complete in submission order
+            time.sleep(0.001 * (int(abs(float(np.real(x).sum())) * 1e7) % 3))
+        return np.array([np.dot(a, np.sin(x)), np.prod(1.0 + 0.1 * x), x[0] * x[-1]])
+
+    def abs_terms(x, h):
+        ax = np.abs(x) + abs(h)
+        return np.array([np.sum(np.abs(a)), np.prod(1.0 + 0.1 * ax), ax[0] * ax[-1]])
+
+    return f, abs_terms
+
+
+def fd_equiv_features(case):
+    sm = case["step_mode"]
+    f = [sm]
+    if case["indices"]:
+        f.append("subset")
+    if case["space"] is not None:
+        f.append("space-normalized" if case["space"]["normalize"] else "space")
+    return "+".join(f)
+
+
+def run_fd_equiv(case, rep):
+    """Parallel (processes) derivative approximation == serial one, however the step / components / bounds are given.
+
+    ``step_mode``: ctor (step given to the constructor only), default (no step at all), call-equal (same scalar at
+    construction and at call), call-scalar (scalar at call different from the constructor/default step), call-array
+    (per-component array at call, all components only).
+    """
+    from gemseo.algos.design_space import DesignSpace
+    from gemseo.utils.derivatives.centered_differences import CenteredDifferences
+    from gemseo.utils.derivatives.complex_step import ComplexStep
+    from gemseo.utils.derivatives.finite_differences import FirstOrderFD
+
+    cls = {"fd": FirstOrderFD, "cd": CenteredDifferences, "cs": ComplexStep}[case["approx"]]
+    n = case["dim"]
+    x0 = np.array(case["x"], dtype=float)
+    feats = fd_equiv_features(case)
+    sp = case["space"]
+    rep.case(("fd_equiv", case["approx"], n, case["w"], case["step_mode"], tuple(case["indices"]),
+              None if sp is None else (sp["normalize"], tuple(sp["kinds"]))), True)
+    call_step = case["call_step"]
+    if isinstance(call_step, list):
+        call_step = np.array(call_step, dtype=float)
+
+    def build(parallel):
+        f, _ = _fd_equiv_function(case["a"], skew=parallel)
+        kw = {}
+        if sp is not None:
+            ds = DesignSpace()
+            ds.add_variable("x", n, lower_bound=np.array(sp["lb"]), upper_bound=np.array(sp["ub"]))
+            kw.update(design_space=ds, normalize=sp["normalize"])
+        if parallel:
+            kw.update(parallel=True, n_processes=case["w"], use_threading=False)
+        return cls(f, step=case["ctor_step"], **kw)
+
+    def grad(app):
+        kw = {}
+        if call_step is not None:
+            kw["step"] = call_step
+        if case["indices"]:
+            kw["x_indices"] = list(case["indices"])
+        return np.asarray(app.f_gradient(x0.copy(), **kw))
+
+    try:
+        serial = grad(build(False))
+    except Exception as e:  # noqa: BLE001 - the serial path is not judged by this property (C16 does)
+        rep.count("fd_equiv_serial_raises_not_judged")
+        rep.observe("serial-derivative-approximation-raises", {"features": f"{FD_CLS[case['approx']]}:{feats}", "error": repr(e)[:150]})
+        return
+    try:
+        par = grad(build(True))
+    except Exception as e:  # noqa: BLE001
+        rep.violation(f"C13:{cls.__name__}._compute_parallel_grad:raises-but-serial-does-not:{type(e).__name__}:{feats}",
+                      "parallel derivative approximation == serial", case, brief(e), brief(serial))
+        return
+    rep.count("fd_equiv_checked")
+    rep.count("fd_equiv_" + case["approx"])
+    rep.count("fd_equiv_step_" + case["step_mode"])
+    if case["indices"]:
+        rep.count("fd_equiv_subset")
+    if sp is not None:
+        rep.count("fd_equiv_design_space")
+        if sp["normalize"]:
+            rep.count("fd_equiv_design_space_normalized")
+        if any(k != "interior" for k in sp["kinds"]):
+            rep.count("fd_equiv_on_or_near_ub")
+    if par.shape != serial.shape:
+        rep.violation(f"C13:{cls.__name__}._compute_parallel_grad:shape-differs-from-serial:{feats}",
+                      "parallel derivative approximation == serial", case, list(par.shape), list(serial.shape))
+        return
+    if not (np.all(np.isfinite(serial)) and serial.ndim == 2):
+        rep.count("fd_equiv_serial_not_finite_not_judged")
+        return
+    # equality up to the rounding of the harness function amplified by 1/h (see C16): 128*eps*sum|terms|/h
+    used = call_step if call_step is not None else (case["ctor_step"] if case["ctor_step"] is not None else cls._DEFAULT_STEP)
+    h = float(np.min(np.abs(used)))
+    if case["approx"] == "cs":
+        tol = 1e-12 * (1.0 + np.abs(serial))
+    else:
+        _, abs_terms = _fd_equiv_function(case["a"], False)
+        tol = (128 * _EPS * abs_terms(x0, h) / h)[:, None] * np.ones_like(serial)
+    diff = np.abs(par - serial)
+    if not np.all(diff <= tol):
+        worst = np.unravel_index(int(np.argmax(diff - tol)), diff.shape)
+        ratio = par[worst] / serial[worst] if serial[worst] != 0 else None
+        rep.violation(f"C13:{cls.__name__}._compute_parallel_grad:differs-from-serial:{feats}",
+                      "parallel derivative approximation produces the same Jacobian as the sequential one", case,
+                      {"parallel": brief(par), "entry": [int(i) for i in worst], "parallel/serial": ratio},
+                      {"serial": brief(serial), "tolerance": brief(tol)})
+
+
+def gen_fd_equiv(rng, approx=None, step_mode=None, space_kind=None, subset=None):
+    approx = approx or rng.choice(["fd", "cd", "cs"])
+    dim = rng.randint(2, 4)
+    step_mode = step_mode or rng.choice(["ctor", "default", "call-equal", "call-scalar", "call-scalar", "call-array"])
+    space_kind = space_kind if space_kind is not None else rng.choice(["none", "none", "phys", "norm"])
+    subset = rng.random() < 0.4 if subset is None else subset
+
+    def scalar():
+        return float(10.0 ** rng.randint(-28, -10)) if approx == "cs" else float(10.0 ** rng.randint(-7, -4))
+
+    default = {"fd": 1e-6, "cd": 1e-6, "cs": 1e-20}[approx]
+    ctor = None if step_mode == "default" or (step_mode != "ctor" and rng.random() < 0.4) else scalar()
+    base = ctor if ctor is not None else default
+    if step_mode in ("ctor", "default"):
+        call = None
+    elif step_mode == "call-equal":
+        call = base
+    elif step_mode == "call-scalar":
+        call = base * rng.choice([0.01, 0.1, 10.0, 100.0])
+    else:
+        subset = False  # the meaning of a per-component step for a component subset is not documented
+        call = [base * rng.choice([0.1, 1.0, 10.0, 100.0]) for _ in range(dim)]
+        if all(c == base for c in call):
+            call[0] = base * 10.0
+    used = call if call is not None else base
+    used = used if isinstance(used, list) else [used] * dim
+    case = {"kind": "fd_equiv", "approx": approx, "dim": dim, "w": rng.randint(2, 3), "step_mode": step_mode,
+            "ctor_step": ctor, "call_step": call, "a": [round(rng.uniform(-2, 2), 2) for _ in range(dim)], "space": None}
+    if space_kind == "none":
+        x = [round(rng.uniform(0.2, 2), 3) for _ in range(dim)]
+    else:
+        norm = space_kind == "norm"
+        lb = [0.0] * dim if norm else [round(rng.uniform(-1, 0), 2) for _ in range(dim)]
+        ub = [1.0] * dim if norm else [round(lb[j] + rng.uniform(1, 3), 2) for j in range(dim)]
+        x, kinds = [], []
+        for j in range(dim):
+            r = rng.random()
+            if r < 0.3:
+                x.append(ub[j])
+                kinds.append("at_ub")
+            elif r < 0.6 and approx != "cs":
+                x.append(ub[j] - abs(used[j]) * rng.choice([0.1, 0.5, 0.9]))
+                kinds.append("near_ub")
+            else:
+                x.append(lb[j] + (ub[j] - lb[j]) * round(rng.uniform(0.2, 0.8), 3))
+                kinds.append("interior")
+        case["space"] = {"lb": lb, "ub": ub, "normalize": norm, "kinds": kinds}
+    case["x"] = x
+    if subset and dim > 1:
+        idx = sorted(rng.sample(range(dim), rng.randint(1, dim - 1)))
+        if rng.random() < 0.3:
+            idx = idx[::-1]
+        case["indices"] = idx
+    else:
+        case["indices"] = []
+    return case
+
+
+def fd_equiv_universe(tier, seed):
+    """A fixed grid {approximator} x {step mode} x {all/subset} x {no space/space/normalized space} plus random cases."""
+    rng = random.Random(subseed(seed, PID, "fd_equiv"))
+    out = []
+    modes = ["ctor", "default", "call-equal", "call-scalar", "call-array"]
+    grid = [(a, m_) for a in ("fd", "cd", "cs") for m_ in modes]
+    spaces = ["none", "phys", "norm"]
+    for k, (a, m_) in enumerate(grid):  # 15 cases: every approximator x every step mode, the other axes rotating
+        out.append(gen_fd_equiv(rng, a, m_, spaces[k % 3] if m_ != "call-scalar" else "none", subset=(k % 2 == 1)))
+    for a in ("fd", "cd", "cs"):  # call-time scalar step with a design space / a subset
+        out.append(gen_fd_equiv(rng, a, "call-scalar", "phys", subset=True))
+        out.append(gen_fd_equiv(rng, a, "call-scalar", "norm", subset=False))
+    for _ in range(600 if tier == "thorough" else 27):
+        out.append(gen_fd_equiv(rng))
+    return out
+
+
 # =========================================================================== shared caches
 def cache_invariants(cache, requested, with_jac):
     """Structural invariants of a full cache, asserted at quiescence under the cache's own lock.
@@ -1356,6 +1558,7 @@ def e2e_universe(tier, seed):
         out.append({"kind": "cache", "cache": cache, "backend": "process", "mode": "execute", "w": rng.randint(2, 3),
                     "pool": pool, "picks": [rng.randrange(npool) for _ in range(n)],
                     "precached": [npool] if rng.random() < 0.5 else [], "delay": 0.003, "yield_seed": 0})
+    out.extend(fd_equiv_universe(tier, seed))
     return out
 
 
@@ -1390,6 +1593,17 @@ def directed_cases():
         {"kind": "cache", "cache": "memory", "backend": "thread", "mode": "execute", "w": 4, "pool": [[1.0, 0.5], [2.0, -1.0]],
          "picks": [0, 0, 0, 0], "precached": [1], "yield_seed": 11},
     ]
+    # derivative approximation: a scalar step given at call time that differs from the constructor / default step
+    fdq = {"kind": "fd_equiv", "dim": 2, "w": 2, "a": [1.0, -0.5], "space": None, "x": [1.0, 2.0], "indices": []}
+    e2e += [
+        dict(fdq, approx="fd", step_mode="call-scalar", ctor_step=None, call_step=1e-4),
+        dict(fdq, approx="fd", step_mode="call-scalar", ctor_step=1e-7, call_step=1e-4),
+        dict(fdq, approx="fd", step_mode="call-array", ctor_step=None, call_step=[1e-5, 1e-7]),
+        dict(fdq, approx="cd", step_mode="call-scalar", ctor_step=1e-7, call_step=1e-4, indices=[1]),
+        dict(fdq, approx="cs", step_mode="call-scalar", ctor_step=None, call_step=1e-12),
+        dict(fdq, approx="fd", step_mode="call-scalar", ctor_step=None, call_step=1e-4, x=[1.0, 2.0 - 5e-5],
+             space={"lb": [0.0, 0.0], "ub": [3.0, 2.0], "normalize": False, "kinds": ["interior", "near_ub"]}),
+    ]
     return out, e2e
 
 
@@ -1408,6 +1622,8 @@ def run_case(case, rep, scratch):
         return run_chain(case, rep)
     if kind == "fd":
         return run_fd(case, rep)
+    if kind == "fd_equiv":
+        return run_fd_equiv(case, rep)
     if kind == "cache":
         return run_cache(case, rep, scratch)
     raise ValueError(kind)
